@@ -973,8 +973,8 @@ func Sample(t *rapid.T, g *Grammar, e *Expr, out *[]VTok, fuel *int) {
 			return
 		}
 		v := rapid.SampledFrom(g.Prof().Vocab).Draw(t, "negtok")
-		if e.Kind == KPars && e.S == "R" && strings.ContainsAny(v.Value, "bB") {
-			v = VTok{Type: "Int", Value: "12"} // the rewinding production does not take tokens spelled with a b
+		if e.Kind == KPars && e.S == "R" && strings.ContainsAny(v.Value, "bB") && rapid.IntRange(0, 3).Draw(t, "refused") > 0 {
+			v = VTok{Type: "Int", Value: "12"} // the rewinding production does not take tokens spelled with a b (one in four stays: a refusal)
 		}
 		*out = append(*out, v)
 	}
